@@ -23,7 +23,11 @@ use serde::de::DeserializeOwned;
 use serde::Serialize;
 use serde_json::{json, Value};
 
-pub const VERIF_ROOT: &str = "/verif";
+/// Root of the verification tree: `/verif`, or `$VERIF_ROOT` (set by `./check` to its own
+/// directory, so that a snapshot of /verif taken by `vp run` works on its own files).
+pub fn verif_root() -> std::path::PathBuf {
+    std::path::PathBuf::from(std::env::var("VERIF_ROOT").unwrap_or_else(|_| "/verif".to_string()))
+}
 
 // ---------------------------------------------------------------------------------------
 // counting allocator (thread local), used by C05 for the "allocation in proportion" oracle
@@ -294,7 +298,7 @@ pub struct KnownFinding {
 }
 
 pub fn load_known_findings() -> Vec<KnownFinding> {
-    let p = Path::new(VERIF_ROOT).join("known_findings.json");
+    let p = verif_root().join("known_findings.json");
     let Ok(text) = std::fs::read_to_string(&p) else {
         return vec![];
     };
@@ -540,7 +544,7 @@ impl Ctx {
 }
 
 fn write_replay(id: &str, sub: &str, reason: &str, case: &Value) -> Option<PathBuf> {
-    let dir = Path::new(VERIF_ROOT).join("replays").join(id);
+    let dir = verif_root().join("replays").join(id);
     std::fs::create_dir_all(&dir).ok()?;
     let d = {
         let mut h = DefaultHasher::new();
@@ -814,7 +818,7 @@ pub struct PropertyDef {
 }
 
 fn regress_files(id: &str) -> Vec<PathBuf> {
-    let dir = Path::new(VERIF_ROOT).join("regress").join(id);
+    let dir = verif_root().join("regress").join(id);
     let mut v: Vec<PathBuf> = std::fs::read_dir(dir)
         .map(|rd| {
             rd.filter_map(|e| e.ok().map(|e| e.path()))
@@ -1019,7 +1023,7 @@ fn write_evidence(ctx: &Ctx, violations: usize, known: &BTreeMap<String, (u64, S
         "wall_s": (ctx.start.elapsed().as_secs_f64() * 100.0).round() / 100.0,
         "violations": violations,
     });
-    let dir = Path::new(VERIF_ROOT).join("evidence");
+    let dir = verif_root().join("evidence");
     let _ = std::fs::create_dir_all(&dir);
     let p = dir.join(format!("{}.json", ctx.id));
     if let Err(e) = std::fs::write(&p, serde_json::to_vec_pretty(&doc).unwrap()) {
